@@ -1,8 +1,14 @@
 (* Correspondence + executable property oracle for C30 (read-only action APIs vs on-chain execution). *)
 From Coq Require Import List NArith Bool.
 Import ListNotations.
-From HV Require Import Lib.Bytes Lib.Harness Model.ActionApi.
+From HV Require Import Lib.Bytes Lib.Harness.
+From HV Require Export Model.ActionApi.
 Local Open Scope N_scope.
+
+(* compact printing of long byte runs in the case terms: rp n x = [x; x+1; x+2; x; x+1; ...] (n bytes) *)
+Fixpoint rp_aux (n : nat) (i x : N) : bytes :=
+  match n with O => [] | S n' => (x + i mod 3) :: rp_aux n' (i + 1) x end.
+Definition rp (n x : N) : bytes := rp_aux (N.to_nat n) 0 x.
 
 Fixpoint list_eqb {A} (eqb : A -> A -> bool) (a b : list A) : bool :=
   match a, b with
@@ -33,39 +39,60 @@ Fixpoint is_prefix_b (a b : list bytes) : bool :=
   end.
 
 Record case := mk {
+  c_wf : bool;                              (* the action byte strings are well formed (false: one was corrupted) *)
+  c_out0 : bytes;                           (* actor tag: the script action starts its output with it *)
   c_state : store;                          (* VM state the three executions start from (fee already deducted) *)
-  c_acts : list (checks * list sop);        (* per action: declared keys, script *)
-  c_exec : list bytes * bool;               (* ExecuteActions: reply.Outputs, reply.Error == "" *)
+  c_acts : list (checks * list sop);        (* per action: declared keys, script (keys resolved for the actor) *)
+  c_exec : list bytes * bool;               (* ExecuteActions: reply.Outputs, reply.Error == "" (RPC error: [], false) *)
   c_sim : option (list (bytes * checks));   (* SimulateActions: None = error, else per action (output, stateKeys) *)
-  c_tx : list bytes * bool;                 (* Transaction.Execute, actions with their own declarations: Outputs, Success *)
+  c_tx : list bytes * bool;                 (* Transaction.Execute, actions with their own declarations: Outputs,
+                                               Success; ([], false) when Execute returned an error (StateKeys) *)
   c_tx_sim : option (list bytes * bool)     (* when simulation succeeded: Transaction.Execute of the same scripts
                                                whose actions declare exactly the simulated keys *)
 }.
 
-Definition progs (c : case) : list prog := map (fun '(_, s) => script_prog s []) (c_acts c).
+Definition acts_of (c : case) : list (checks * prog) :=
+  map (fun '(d, s) => (d, script_prog s (c_out0 c))) (c_acts c).
+Definition progs (c : case) : list prog := map snd (acts_of c).
 
 Definition check_case (c : case) : bool :=
   let base := s_get (c_state c) in
-  outs_eqb (run_exec base [] (map (fun '(d, s) => (d, script_prog s [])) (c_acts c))) (c_exec c)
-  && sim_eqb (run_sim base [] (progs c)) (c_sim c)
-  && outs_eqb (run_tx (perm_of (concat (map fst (c_acts c)))) base [] (progs c)) (c_tx c)
-  && match c_sim c, c_tx_sim c with
-     | Some rs, Some t => outs_eqb (run_tx (perm_of (concat (map snd rs))) base [] (progs c)) t
-     | None, None => true
-     | _, _ => false
-     end.
+  if c_wf c then
+    outs_eqb (run_exec base [] (acts_of c)) (c_exec c)
+    && sim_eqb (run_sim base [] (progs c)) (c_sim c)
+    && outs_eqb (tx_run [] base [] (acts_of c)) (c_tx c)
+    && match c_sim c, c_tx_sim c with
+       | Some rs, Some t =>
+           outs_eqb (tx_run [] base [] (combine (map snd rs) (progs c))) t
+           && Nat.eqb (length rs) (length (progs c))
+       | None, None => true
+       | _, _ => false
+       end
+  else
+    (* a malformed action: both handlers return an error before executing anything, no transaction parses *)
+    outs_eqb ([], false) (c_exec c) && sim_eqb None (c_sim c) && outs_eqb ([], false) (c_tx c)
+    && match c_tx_sim c with None => true | Some _ => false end.
 
-(* The property on the implementation's outputs (no model):
-   1. the outputs ExecuteActions returned are a prefix of the transaction's outputs, and when every action
-      succeeded they are all of them and the transaction succeeded;
+(* The property on the implementation's outputs (no model).  For well-formed action lists:
+   1. when the actions can form a transaction (every declared key is a valid key): the outputs ExecuteActions
+      returned are a prefix of the transaction's outputs, and when every action succeeded they are all of them
+      and the transaction succeeded;
    2. when the transaction succeeded, SimulateActions succeeded with the same outputs;
-   3. when SimulateActions succeeded, the transaction declaring the reported keys succeeded with the same outputs. *)
+   3. when SimulateActions succeeded, the transaction declaring the reported keys succeeded with the same outputs.
+   Malformed action bytes: both handlers refuse. *)
+Definition decls_valid_b (c : case) : bool :=
+  forallb (fun '(d, _) => forallb (fun '(k, _) => Nat.leb 2 (length k)) d) (c_acts c).
+
 Definition spec_ok (c : case) : bool :=
-  is_prefix_b (fst (c_exec c)) (fst (c_tx c))
-  && (negb (snd (c_exec c)) || outs_eqb (c_exec c) (c_tx c))
-  && (negb (snd (c_tx c)) ||
-      match c_sim c with Some rs => list_eqb bytes_eqb (map fst rs) (fst (c_tx c)) | None => false end)
-  && match c_sim c with
-     | Some rs => match c_tx_sim c with Some t => outs_eqb (map fst rs, true) t | None => false end
-     | None => true
-     end.
+  if c_wf c then
+    (negb (decls_valid_b c) ||
+       is_prefix_b (fst (c_exec c)) (fst (c_tx c))
+       && (negb (snd (c_exec c)) || outs_eqb (c_exec c) (c_tx c)))
+    && (negb (snd (c_tx c)) ||
+        match c_sim c with Some rs => list_eqb bytes_eqb (map fst rs) (fst (c_tx c)) | None => false end)
+    && match c_sim c with
+       | Some rs => match c_tx_sim c with Some t => outs_eqb (map fst rs, true) t | None => false end
+       | None => true
+       end
+  else
+    negb (snd (c_exec c)) && match c_sim c with None => true | Some _ => false end.
